@@ -13,7 +13,10 @@ import (
 
 type verifFV struct{ e fr.Element }
 
-type verifFieldEng struct{ frontend.API }
+type verifFieldEng struct {
+	frontend.API
+	eqs []bool // outcome of every AssertIsEqual, in order
+}
 
 func verifFE(x frontend.Variable) fr.Element {
 	var e fr.Element
@@ -70,5 +73,47 @@ func (a *verifFieldEng) MulAcc(x, b, c frontend.Variable) frontend.Variable {
 	r, y, z := verifFE(x), verifFE(b), verifFE(c)
 	y.Mul(&y, &z)
 	r.Add(&r, &y)
+	return verifFV{r}
+}
+
+func (a *verifFieldEng) DivUnchecked(i1, i2 frontend.Variable) frontend.Variable {
+	r, y := verifFE(i1), verifFE(i2)
+	y.Inverse(&y)
+	r.Mul(&r, &y)
+	return verifFV{r}
+}
+func (a *verifFieldEng) AssertIsEqual(i1, i2 frontend.Variable) {
+	x, y := verifFE(i1), verifFE(i2)
+	a.eqs = append(a.eqs, x.Equal(&y))
+}
+
+// boolean-valued results are the field elements 0 / 1 (the harness branches on symbolic tests)
+func verifBoolFV(b bool) verifFV {
+	var e fr.Element
+	if b {
+		e.SetOne()
+	}
+	return verifFV{e}
+}
+func (a *verifFieldEng) IsZero(i1 frontend.Variable) frontend.Variable {
+	x := verifFE(i1)
+	return verifBoolFV(x.IsZero())
+}
+func (a *verifFieldEng) And(i1, i2 frontend.Variable) frontend.Variable {
+	x, y := verifFE(i1), verifFE(i2)
+	return verifBoolFV(!x.IsZero() && !y.IsZero())
+}
+func (a *verifFieldEng) Select(b, i1, i2 frontend.Variable) frontend.Variable {
+	c := verifFE(b)
+	if !c.IsZero() {
+		return verifFV{verifFE(i1)}
+	}
+	return verifFV{verifFE(i2)}
+}
+func (a *verifFieldEng) Div(i1, i2 frontend.Variable) frontend.Variable {
+	r, y := verifFE(i1), verifFE(i2)
+	verifAssert(!y.IsZero(), "Div is never given a zero divisor (it would make the circuit unsatisfiable)")
+	y.Inverse(&y)
+	r.Mul(&r, &y)
 	return verifFV{r}
 }
